@@ -6,5 +6,5 @@ cd /repo && [ -z "$(git status --porcelain)" ] || { echo "repo dirty"; exit 2; }
 git -C /repo apply "$PATCH" || { echo "patch does not apply"; exit 2; }
 mkdir -p /tmp/vtest-seed; cp /verif/known_findings.json /tmp/vtest-seed/; /verif/bin/martiancheck -prop "$PROP" -tier "$TIER" -repo /repo -verif /tmp/vtest-seed | grep -v "^KNOWN-FINDING" | cut -c1-400
 rc=${PIPESTATUS[0]}
-git -C /repo checkout -- . 
+git -C /repo checkout -- . ; git -C /repo clean -fdq
 echo "seedcheck exit=$rc"
